@@ -43,3 +43,79 @@ pub fn twin() {
     vcheck!(!got, "twin:reachable");
     std::mem::forget((r, cfg));
 }
+
+// ---------------------------------------------------------------------------------------------
+// hash ring: virtual-node positions from a concrete table per instance (several layouts, including
+// adjacent virtual nodes of one physical node and positions at the ends of the u64 range), the key's
+// position an arbitrary u64 -> every arc of the layout, the wrap-around and exact hits are covered.
+// Natively the ring hashes for real; the same oracle is swept over 4000 real keys.
+// ---------------------------------------------------------------------------------------------
+const LAYOUTS: [[[u64; 2]; 5]; 3] = [
+    // node 0 unused; nodes 1..=4, two virtual nodes each
+    [[0, 0], [100, 5000], [200, 6000], [300, 7000], [400, 8000]],
+    [[0, 0], [10, 20], [30, 18446744073709551615], [0, 40], [50, 60]],           // adjacent vnodes, positions 0 and u64::MAX
+    [[0, 0], [9000, 100], [8000, 200], [7000, 300], [6000, 400]],                // interleaved the other way
+];
+
+fn replicas_ok(list: &[ReplicaId], rf: usize, members: usize) -> bool {
+    let want = if rf < members { rf } else { members };
+    if list.len() != want { return false; }
+    let mut i = 0;
+    while i < list.len() { let mut j = i + 1; while j < list.len() { if list[i] == list[j] { return false; } j += 1; } i += 1; }
+    true
+}
+fn same(a: &[ReplicaId], b: &[ReplicaId]) -> bool { if a.len() != b.len() { return false; } let mut i = 0; while i < a.len() { if a[i] != b[i] { return false; } i += 1; } true }
+fn contains(a: &[ReplicaId], x: ReplicaId) -> bool { let mut i = 0; while i < a.len() { if a[i] == x { return true; } i += 1; } false }
+
+/// one judgement of the oracle for one key; returns (order_independent, well_formed, minimal_change, gossip_exact)
+fn judge(key: &str, members: usize, rf: usize, removed: u64) -> (bool, bool, bool, bool) {
+    let ids: [u64; 4] = [1, 2, 3, 4];
+    let fwd: Vec<ReplicaId> = (0..members).map(|i| ReplicaId(ids[i])).collect();
+    let rev: Vec<ReplicaId> = (0..members).rev().map(|i| ReplicaId(ids[i])).collect();
+    let r1 = HashRing::new(fwd, 2, rf);
+    let r2 = HashRing::new(rev, 2, rf);
+    let a = r1.get_replicas(key);
+    let b = r2.get_replicas(key);
+    let order_independent = same(&a, &b);
+    let well_formed = replicas_ok(&a, rf, members);
+    // remove one member: placement changes only if the removed node was in the list
+    let mut r3 = r1.clone();
+    r3.remove_node(ReplicaId(removed));
+    let c = r3.get_replicas(key);
+    let minimal = contains(&a, ReplicaId(removed)) || same(&a, &c);
+    let after_ok = replicas_ok(&c, rf, members - 1) && !contains(&c, ReplicaId(removed));
+    // selective gossip from node 1: exactly the replicas other than the sender
+    let g = r1.get_gossip_targets(key, ReplicaId(1));
+    let mut gossip = !contains(&g, ReplicaId(1));
+    let mut i = 0;
+    while i < a.len() { if a[i] != ReplicaId(1) && !contains(&g, a[i]) { gossip = false; } i += 1; }
+    let mut j = 0;
+    while j < g.len() { if !contains(&a, g[j]) { gossip = false; } j += 1; }
+    std::mem::forget((r1, r2, r3));
+    (order_independent, well_formed, minimal && after_ok, gossip)
+}
+
+pub fn ring(layout: usize, members: usize) {
+    let pos = vs::u64();
+    let rf = vs::usize();
+    vs::assume(rf >= 1 && rf <= 4);
+    let removed = vs::u64();
+    vs::assume(removed >= 1 && removed <= members as u64);
+    crate::vs::ring_set(LAYOUTS[layout], pos);
+    let (mut o, mut w, mut m, mut g) = judge("k", members, rf, removed);
+    if vs::NATIVE {
+        // real hash functions: sweep real keys with the solver's rf / removed member
+        let mut i = 0;
+        while i < 4000 {
+            let key = format!("key:{}", i);
+            let (o2, w2, m2, g2) = judge(&key, members, rf, removed);
+            o &= o2; w &= w2; m &= m2; g &= g2;
+            i += 1;
+        }
+    }
+    vcheck!(o, "ring:replica list depends on the order in which members joined");
+    vcheck!(w, "ring:replica list is not min(rf, cluster size) distinct members");
+    vcheck!(m, "ring:removing a node changed the placement of a key it did not hold (or left it in a list)");
+    vcheck!(g, "ring:selective gossip targets are not exactly the replicas other than the sender");
+    vcover!(rf >= members, "replication factor covers the whole cluster");
+}
